@@ -187,53 +187,90 @@ def check(run):
     G = r"trimesh\.grouping\.group_rows\((?:P_edges_sorted|PHI_edges_sorted|numpy\.sort\(P_edges, axis=1\)), require_count=2\)"
     alts = pw.alternatives("edges_sorted", rets[0]) if "PHI_edges_sorted" in wt_txt + wd_txt else {"P_edges_sorted"}
     alts_ok = alts is not None and alts <= {"P_edges_sorted", "numpy.sort(P_edges, axis=1)"}
-    m = re.search(r"P_edges\[" + G + r"\]\.reshape\(\(-1, (\d+)\)\)\[:, ([^\]]+\]?)\]\.T", wd_txt)
-    if not m:
-        raise AnalysisError(f"anchor vanished: the opposing-edge slice in graph.is_watertight (`{wd_txt[:120]}`)")
-    W = int(m.group(1))
-    sel = m.group(2)
+    # the winding test, whatever the spelling: evaluate the constant column selections of the canonical expression on one
+    # symbolic row per twin pair - (x, y, y, x) for properly opposed twins, (x, y, x, y) for twins running the same way
+    import numpy as _np
+
+    from ..index import const_eval as _ce
+
+    XPAT = re.compile(r"P_edges\[" + G + r"\]\.reshape\((?:\(-1, (\d+)\)|-1, (\d+))\)")
+    widths = []
+
+    class _Unknown(Exception):
+        pass
+
+    def _idx(sl):
+        if isinstance(sl, ast.Slice):
+            return slice(*[None if v is None else _ce(v) for v in (sl.lower, sl.upper, sl.step)])
+        if isinstance(sl, ast.Tuple):
+            return tuple(_idx(e) for e in sl.elts)
+        return _ce(sl)
+
+    def _ev(e, row):
+        t = ast.unparse(e)
+        mm = XPAT.fullmatch(t)
+        if mm:
+            w = int(mm.group(1) or mm.group(2))
+            widths.append(w)
+            if w != len(row):
+                raise _Unknown(f"reshape width {w}")
+            return _np.array([row], dtype=object)
+        if isinstance(e, ast.Subscript):
+            try:
+                return _ev(e.value, row)[_idx(e.slice)]
+            except (ValueError, TypeError, IndexError) as ex:
+                raise _Unknown(f"index `{ast.unparse(e.slice)}`: {ex}")
+        if isinstance(e, ast.Attribute) and e.attr == "T":
+            return _ev(e.value, row).T
+        if isinstance(e, ast.Call) and isinstance(e.func, ast.Attribute) and e.func.attr in ("transpose",) and not e.args:
+            return _ev(e.func.value, row).T
+        raise _Unknown(f"`{t[:60]}`")
+
+    def _compared(row):
+        """the two operands of the element-wise equality whose .all() is the winding verdict"""
+        tree = ast.parse(wd_txt, mode="eval").body
+        if not (isinstance(tree, ast.Call) and isinstance(tree.func, ast.Attribute) and tree.func.attr == "all" and not tree.args):
+            raise _Unknown("not `(...).all()`")
+        inner = tree.func.value
+        if isinstance(inner, ast.Call) and ast.unparse(inner.func) == "numpy.equal":
+            if len(inner.args) == 1 and isinstance(inner.args[0], ast.Starred):
+                mat = _ev(inner.args[0].value, row)
+                if len(mat) != 2:
+                    raise _Unknown("starred operand does not unpack into two columns")
+                return mat[0], mat[1]
+            if len(inner.args) == 2:
+                return _ev(inner.args[0], row), _ev(inner.args[1], row)
+        if isinstance(inner, ast.Compare) and len(inner.ops) == 1 and isinstance(inner.ops[0], ast.Eq):
+            return _ev(inner.left, row), _ev(inner.comparators[0], row)
+        raise _Unknown("no element-wise equality")
+
     try:
-        if sel.startswith("["):
-            picker = [int(x) for x in ast.literal_eval(sel)]
+        o1, o2 = _compared(["x", "y", "y", "x"])
+        s1, s2 = _compared(["x", "y", "x", "y"])
+        sel_opp, sel_same = [list(_np.ravel(o1)), list(_np.ravel(o2))], [list(_np.ravel(s1)), list(_np.ravel(s2))]
+        ok = len(sel_opp[0]) == 1 and len(sel_opp[1]) == 1 and sel_opp[0] == sel_opp[1] and sel_same[0] != sel_same[1] and alts_ok
+        run.instance("R4", fw.where, f"reshape width {sorted(set(widths))}: opposed twin compares {sel_opp}, same-direction twin {sel_same}; "
+                                     f"pairs from groups of two equal sorted edges ({sorted(alts or [])})", ok)
+        if not ok:
+            run.violation("R4", fw.where, "is_watertight's winding test does not compare the head of an edge with the tail of its twin over the groups of two equal sorted edges",
+                          key=key_of("C05-R4", "is_watertight"))
+    except _Unknown as ex:
+        if "P_edges[" not in wd_txt or "group_rows" not in wd_txt:
+            run.instance("R4", fw.where, f"winding verdict `{wd_txt[:100]}`", False)
+            run.violation("R4", fw.where, "is_watertight's winding test does not compare the head of an edge with the tail of its twin over the groups of two equal sorted edges",
+                          key=key_of("C05-R4", "is_watertight"))
         else:
-            parts = [int(x) if x.strip() else None for x in sel.split(":")]
-            picker = slice(*parts) if len(parts) > 1 else [parts[0]]
-    except (ValueError, SyntaxError):
-        raise AnalysisError(f"is_watertight: cannot evaluate the column selection `{sel}`")
-    a, b = sel, ""
-    opp = ["x", "y", "y", "x"]
-    same = ["x", "y", "x", "y"]
-    pick = (lambda row: row[picker]) if isinstance(picker, slice) else (lambda row: [row[i] for i in picker])
-    sel_opp, sel_same = pick(opp), pick(same)
-    ok = W == 4 and len(sel_opp) == 2 and sel_opp[0] == sel_opp[1] and sel_same[0] != sel_same[1] and alts_ok \
-        and re.fullmatch(r"numpy\.equal\(\*.*\)\.all\(\)", wd_txt) is not None
-    run.instance("R4", fw.where, f"reshape width {W}, columns [{a}{b}] -> opposed twin {sel_opp}, same-direction twin {sel_same}; "
-                                 f"pairs from groups of two equal sorted edges ({sorted(alts or [])})", ok)
-    if not ok:
-        run.violation("R4", fw.where, "is_watertight's winding test does not compare the head of an edge with the tail of its twin over the groups of two equal sorted edges",
-                      key=key_of("C05-R4", "is_watertight"))
+            run.instance("R4", fw.where, f"winding verdict not evaluated ({ex}): undecided", True, nontrivial=False)
+            run.assume(f"C05-R4: the spelling of is_watertight's winding comparison is not recognised ({ex}); not decided on this tree")
     forms = re.fullmatch(r"(?:len\(" + G + r"\) \* 2|2 \* len\(" + G + r"\)) == len\(P_edges\)|len\(P_edges\) == (?:len\(" + G + r"\) \* 2|2 \* len\(" + G + r"\))", wt_txt)
     run.instance("R4", fw.where, f"watertight iff every directed edge is in a group of exactly two (`{wt_txt[:90]}`)", forms is not None)
     if forms is None:
         run.violation("R4", fw.where, f"watertightness is no longer `every directed edge belongs to a pair` (`{wt_txt[:100]}`)", key=key_of("C05-R4", "watertight-count"))
-    fx = ix.func("trimesh.repair:fix_winding")
-    px = Prov(ix, fx)
-    flips = [(st, i) for st in ast.walk(fx.node) if isinstance(st, ast.Assign) and isinstance(st.targets[0], ast.Subscript)
-             for i in [st.targets[0]] if isinstance(i.value, ast.Name) and isinstance(st.value, ast.Subscript)
-             and ast.unparse(st.value.slice).strip("()") == "::-1" and ast.unparse(st.value.value) == ast.unparse(i)]
-    ok = len(flips) == 1
-    gd = ""
-    if ok:
-        fst, tgt = flips[0]
-        gs = px.guards(fst, stop=("edges",))
-        gd = gs[-1] if gs else ""
-        # guard: the two copies of the shared edge start at the same vertex <=> the edge runs the same way in both faces
-        shared = "L_edges[trimesh.grouping.group_rows(numpy.sort(L_edges, axis=1), require_count=2)[0]]"
-        ok = gd in (f"{shared}[0][0] == {shared}[1][0]", f"{shared}[1][0] == {shared}[0][0]", f"{shared}[0][1] == {shared}[1][1]")
-        # the edges are those of exactly the pair of faces, and the flipped face is one of that pair
-        ea = px.alternatives("edges", fst, stop=("faces", "face_pair"))
-        ok = ok and ea == {"trimesh.geometry.faces_to_edges(L_faces[L_face_pair])"}
-        ok = ok and px.canon(tgt, fst, stop=("faces", "face_pair")) in ("L_faces[L_face_pair[1]]", "L_faces[L_face_pair[0]]")
+    from ..windingrule import fix_winding_facts
+    wf = fix_winding_facts(ix)
+    fx = wf["func"]
+    ok = wf["n_flips"] == 1 and wf["guard_ok"] and wf["target_ok"]
+    gd = wf["detail"]
     run.instance("R4", fx.where, f"fix_winding reverses one face of the pair exactly when the shared edge starts at the same vertex in both (`{gd[:80]}`)", ok)
     if not ok:
         run.violation("R4", fx.where, "fix_winding's same-direction test or flip changed", key=key_of("C05-R4", "fix_winding"))
